@@ -79,3 +79,6 @@ func vCipherLen(cipherValue string) int
 func vB64OK(s string) bool
 func vByteAt(b []byte, i int) byte
 func vRSADecryptCalls() int
+
+func vGCMTagOK(name string) bool
+func vIsGCMOpened(out []byte) bool
